@@ -299,7 +299,9 @@ def run(ctx):
                         continue
                     others = [t for l2, t in arms.items() if l2 != lab and t != arms[lab]]
                     reach = an.reach([arms[lab]], ('normal',), avoid=others)
-                    made = sorted({ev for blk, s, ho, ev in errs if blk.idx in reach and not any(blk.idx in an.reach([o], ('normal',), avoid=[arms[lab]]) for o in others)})
+                    # the error value built on this arm only (the tuple around it may be built after the arms have joined)
+                    made = sorted({s2.rv.j['variant'] for y in reach if not any(y in an.reach([o], ('normal',), avoid=[arms[lab]]) for o in others)
+                                   for s2 in b.blocks[y].stmts if s2.kind == 'assign' and s2.rv.kind == 'agg' and s2.rv.j.get('ak') == 'adt' and 'PoolError' in s2.rv.j.get('adt', '')})
                     ctx.ob('R05.5', 'try_add: %s maps to %s' % (lab, want), made == [want], ctx.where(b, x.term.line), 'constructs %s' % made, construct='try_add-map:' + lab)
             ctx.floor('R05.5', 'TryAcquireError switches in try_add', len(sw), 1)
         else:
